@@ -36,7 +36,7 @@ type Explorer struct {
 	timeout               int
 	fbTimeout             int
 	fbCalls, fbCvc5, fbZ3 int
-	recycled              int
+	recycled, revived     int
 	workers               int
 	maxPaths              int
 	deadline              time.Time
@@ -221,6 +221,7 @@ func (ex *Explorer) Run() {
 				ex.sstats.Time += s.stats.Time
 				ex.fbCalls += s.fbStats.Calls
 				ex.recycled += s.recycled
+				ex.revived += s.revived
 				ex.fbCvc5 += s.fbStats.ByCvc5Int
 				ex.fbZ3 += s.fbStats.ByZ3
 				ex.mu.Unlock()
@@ -237,7 +238,7 @@ func (ex *Explorer) Run() {
 				if npaths++; npaths%32 == 0 {
 					s.Recycle(recycleKB)
 				}
-				if s.dead {
+				if s.dead && !s.reviveIdle() {
 					ex.mu.Lock()
 					ex.engineErrs = append(ex.engineErrs, "solver process died")
 					ex.stop = true
